@@ -87,7 +87,10 @@ func (obj JsonWebEncryption) computeAuthData() []byte {
 	var protected string
 
 	if obj.original != nil {
-		protected = obj.original.Protected.base64()
+		// A message may have no protected header at all.
+		if obj.original.Protected != nil {
+			protected = obj.original.Protected.base64()
+		}
 	} else {
 		protected = base64URLEncode(mustSerializeJSON((obj.protected)))
 	}
